@@ -167,6 +167,15 @@ func NewSingleHostReverseProxy(target *url.URL, without string, keepalive int, t
 			req.URL.Host = target.Host
 		}
 
+		// The client's spelling of the path (RawPath) is what goes upstream,
+		// but net/url drops it in favour of re-encoding the decoded path
+		// (%2F has become a slash there) as soon as one byte of it should
+		// have been escaped and is not - raw UTF-8, a double quote. Escape
+		// those bytes; the escapes the client did write stay as they are.
+		if req.URL.RawPath != "" && req.URL.EscapedPath() != req.URL.RawPath {
+			req.URL.RawPath = escapeStrayBytes(req.URL.RawPath)
+		}
+
 		// remove the `without` prefix
 		if without != "" {
 			req.URL.Path = trimPathPrefix(req.URL.Path, without)
@@ -793,6 +802,25 @@ func trimEscapedPathPrefix(p, prefix string) string {
 		return p
 	}
 	return p[i:]
+}
+
+// escapeStrayBytes percent-encodes the bytes of the encoded path p that may
+// not appear in a path unescaped; everything else, existing escapes
+// included, is left alone.
+func escapeStrayBytes(p string) string {
+	const upperhex = "0123456789ABCDEF"
+	var b strings.Builder
+	for i := 0; i < len(p); i++ {
+		c := p[i]
+		if c <= 0x20 || c >= 0x7f || strings.IndexByte("\"#<>\\^`{|}", c) >= 0 {
+			b.WriteByte('%')
+			b.WriteByte(upperhex[c>>4])
+			b.WriteByte(upperhex[c&15])
+		} else {
+			b.WriteByte(c)
+		}
+	}
+	return b.String()
 }
 
 func ishex(c byte) bool {
